@@ -2,6 +2,7 @@
   CRProofs.Decimal — `float_to_str` on plain decimal strings: what it keeps and how far the value can move.
 -/
 import CRModel.Codec
+import CRModel.DecVal
 import Mathlib.Tactic.Ring
 import Mathlib.Tactic.Linarith
 import Mathlib.Tactic.Positivity
@@ -10,11 +11,6 @@ import Mathlib.Tactic.FieldSimp
 namespace CR.X
 
 def isDigit (c : Char) : Bool := c.isDigit
-
-/-- value of a digit string (most significant first) -/
-def natOf : List Char → Nat → Nat
-  | [], acc => acc
-  | c :: cs, acc => natOf cs (10 * acc + (c.toNat - 48))
 
 def noDot (s : List Char) : Prop := ∀ c, c ∈ s → c ≠ '.'
 
